@@ -528,4 +528,18 @@ theorem setBound_history_independent (lg : K → K) (vars : List (Var K)) (n : N
 example : (List.replicate 3 exVars).map (setBound toyLogExp.log10) =
     List.replicate 3 (.ok ([3, 93, 0, -2, -2, -2], [13, 193, 5, 2, 2, 2])) := by decide
 
+/-! ## several islands: each island's processor carries its own champion -/
+
+/-- **Per island.**  Whatever the number of islands, the parameters reported for island `i` are the values
+applied to island `i`'s own processor (the deprecated `pyxel.calibration_mode` returns both, per island):
+`reported_eq_applied` holds for every champion of the list, so no island can carry another island's
+champion.  Tie to the code: the `deprecated` stream of the harness (2–3 islands, reported champion
+vs. the returned processors and simulated data). -/
+theorem islands_reported_eq_applied (pw : K → K) (vars : List (Var K))
+    (hno : ∀ v ∈ vars, v.values ≠ .other) (xs : List (List K))
+    (hlen : ∀ x ∈ xs, x.length = specTotal vars) :
+    ∀ x ∈ xs, ∃ r, applied pw vars x = .ok r ∧ flattenAssigned r = reported pw vars x ∧
+      r.map (·.1) = vars.map (·.key) :=
+  fun x hx => reported_eq_applied pw vars hno x (hlen x hx)
+
 end PyxelModel.C10
